@@ -102,6 +102,28 @@ def run(tier):
                                              "".join("%d/%d%s," % (j + 1, n, "L" if j + 1 == n else "") for j in range(len(res["each"]))))
                 jobs.append({"ctx": ctx, "steps": [{"op": "render_str", "src": src, "auto": False}]})
                 meta.append((vec, cn, src, exp))
+    # string LITERALS (MC_StrLit): escapes and multi-byte characters in one literal, under each quote kind; the decoded text is
+    # measured, indexed, reversed and iterated by characters like any other string
+    rl = vp.tlc("MC_StrLit", "MC_StrLit", workers=4, timeout=600, name="c14-strlit")
+    C.add_tlc(rl, "MC_StrLit (string literals: units x quote kind)")
+    SRC = {"a": "a", "e2": "\u00e9", "c3": "\u4e16", "e4": "\U0001F600", "sp": " ", "bn": "\\n", "bt": "\\t", "br": "\\r", "bb": "\\\\", "bs": "\\/", "bq1": "\\'", "bq2": '\\"',
+           "bx": "\\x", "b0": "\\0", "q1": "'", "q2": '"'}
+    CH = {"a": "a", "e2": "\u00e9", "c3": "\u4e16", "e4": "\U0001F600", "sp": " ", "NL": "\n", "TAB": "\t", "CR": "\r", "BSL": "\\", "SL": "/", "q1": "'", "q2": '"'}
+    QS = {"q1": "'", "q2": '"', "q3": "`"}
+    seen_l = set()
+    for v in rl.tags["VEC"]:
+        lit = QS[v["q"]] + "".join(SRC[u] for u in v["units"]) + QS[v["q"]]
+        if lit in seen_l:
+            continue
+        seen_l.add(lit)
+        src = "{{ %s | length }}\x1f{{ %s }}\x1f{%% for c in %s %%}[{{ c }}]{%% endfor %%}\x1f{{ %s | reverse }}\x1f{%% if %s[0] is defined %%}{{ %s[0] }}{%% endif %%}" % ((lit,) * 6)
+        if v["ok"]:
+            t = [CH[c] for c in v["chars"]]
+            exp = "%d\x1f%s\x1f%s\x1f%s\x1f%s" % (len(t), "".join(t), "".join("[%s]" % c for c in t), "".join(reversed(t)), t[0] if t else "")
+        else:
+            exp = None
+        jobs.append({"ctx": {}, "steps": [{"op": "render_str", "src": src, "auto": False}]})
+        meta.append(({"v": {"op": "literal", "len": len(v["units"]), "a": "".join(v["units"]), "b": v["q"]}}, "literal", src, exp))
     # bounds of a wrong kind: none counts as absent, anything non-integer is an error
     for pos in range(3):
         for kind, val, ok in (("none", None, True), ("float", {"$f64": "1.0"}, False), ("str", "1", False), ("undef", None, False)):
@@ -113,7 +135,15 @@ def run(tier):
             src = "{{ x[%s:%s%s] }}" % (parts[0], parts[1], (":" + parts[2]) if parts[2] else "")
             jobs.append({"ctx": ctx, "steps": [{"op": "render_str", "src": src, "auto": False}]})
             meta.append(({"v": {"op": "badbound", "kind": kind, "pos": pos, "len": 3}}, "arr", src, "[10, 11, 12]" if ok else None))
-    res = vp.traced(jobs, C, "c14") if tier == "quick" else vp.run_jobs(jobs, tag="c14")
+    lit_idx = [i for i, m_ in enumerate(meta) if m_[1] == "literal"]
+    oth_idx = [i for i, m_ in enumerate(meta) if m_[1] != "literal"]
+    r_oth = vp.traced([jobs[i] for i in oth_idx], C, "c14") if tier == "quick" else vp.run_jobs([jobs[i] for i in oth_idx], tag="c14")
+    r_lit = vp.run_jobs([jobs[i] for i in lit_idx], tag="c14-lit")          # (literals: text only, no trace validation)
+    res = [None] * len(jobs)
+    for i, r_ in zip(oth_idx, r_oth):
+        res[i] = r_
+    for i, r_ in zip(lit_idx, r_lit):
+        res[i] = r_
     for (vec, cn, src, exp), rr, job in zip(meta, res, jobs):
         C.count()
         x = rr[0]
